@@ -6,6 +6,7 @@ import z3
 from symx import core, oracles as O
 
 PROPERTY = "C12"
+BUDGET = {"quick": 280, "thorough": 1500}
 LEVEL = "model_checking"
 BOUNDS = {
     "quick": "lazy mode: real PC.build_skeleton/skeleton_to_pdag/estimate with a d-separation oracle over an UNKNOWN acyclic graph (edges symbolic), "
@@ -32,6 +33,20 @@ def scenarios(tier, seed):
                     k += 1
                     out.append(dict(family=f"lazy/{variant}/{rt}/n{n}", mode="lazy", n=n, variant=variant, rt=rt, hashseed=hs,
                                     labels=["str", "int"][k % 2], budget_s=150 if n <= 4 else 1200, max_paths=20000, cost=10 ** n, validate=True))
+    # tight bound: max_cond_vars equal to the maximal degree (the unknown graph is assumed to have degree <= m)
+    for variant in ["orig", "stable", "parallel"]:
+        for m in (1, 2):
+            k += 1
+            out.append(dict(family=f"lazy/{variant}/pdag/n4-tight", mode="lazy", n=4, variant=variant, rt="pdag", hashseed=k % 2, labels=["str", "int"][k % 2],
+                            budget_s=150, max_paths=20000, cost=5000, max_cond_vars=m, max_degree=m, validate=True))
+    # five nodes: graphs in the neighbourhood of a dense base graph (three node pairs left completely unknown), where Meek's rule 4 feeds further
+    # orientations
+    base5 = [(3, 0), (3, 4), (3, 2), (0, 2), (4, 2), (0, 1), (4, 1), (2, 1)]
+    for free in ([(1, 2), (0, 4), (1, 3)], [(2, 3), (0, 1), (0, 3)], [(1, 4), (2, 4), (0, 4)]):
+        for variant in (["stable"] if tier == "quick" else ["orig", "stable"]):
+            k += 1
+            out.append(dict(family=f"lazy/{variant}/pdag/n5-dense", mode="lazy", n=5, variant=variant, rt="pdag", hashseed=k % 2, labels="str", budget_s=150,
+                            max_paths=20000, cost=8000, base_edges=base5, free_pairs=free, validate=True))
     # independencies= entry point, eager
     for n in ([3] if tier == "quick" else [3, 4]):
         for dag in all_labelled_dags(n):
@@ -113,7 +128,7 @@ def mec_members(n, edges):
 class SymDag:
     """unknown acyclic graph: E[(i,j)] for i != j, acyclicity via integer ranks"""
 
-    def __init__(self, M, n):
+    def __init__(self, M, n, desc=None):
         self.n = n
         V = range(n)
         self.Eb = {(i, j): M.bool(f"d_{i}_{j}") for i in V for j in V if i != j}
@@ -125,10 +140,29 @@ class SymDag:
             for (i, j), e in self.E.items():
                 M.assume(z3.Implies(e, rk[i] < rk[j]), None)
             core.CTX.assumptions.append("ground truth is an acyclic directed graph (rank function)")
+            if desc is not None and desc.get("max_degree") is not None:
+                m = desc["max_degree"]
+                for i in V:
+                    M.assume(z3.Sum([z3.If(z3.Or(self.E[(i, j)], self.E[(j, i)]), 1, 0) for j in V if j != i]) <= m, None)
+                core.CTX.assumptions.append(f"every node of the ground truth has at most {m} neighbours (max_cond_vars is set to that bound)")
+            if desc is not None and desc.get("base_edges") is not None:
+                base = {tuple(e) for e in desc["base_edges"]}
+                free = {frozenset(p) for p in desc["free_pairs"]}
+                for (i, j), e in self.E.items():
+                    if frozenset((i, j)) in free:
+                        continue
+                    M.assume(e if (i, j) in base else z3.Not(e), None)
+                core.CTX.assumptions.append(f"ground truth agrees with a fixed dense graph outside the node pairs {sorted(map(sorted, free))}")
         else:
             self.E = {k: bool(b) for k, b in self.Eb.items()}
             edges = [k for k, b in self.E.items() if b]
             M.assume(is_acyclic(n, edges) and not any((j, i) in edges for i, j in edges), "acyclic ground truth")
+            if desc is not None and desc.get("max_degree") is not None:
+                M.assume(all(sum(1 for j in V if j != i and ((i, j) in edges or (j, i) in edges)) <= desc["max_degree"] for i in V), "degree bound")
+            if desc is not None and desc.get("base_edges") is not None:
+                base = {tuple(e) for e in desc["base_edges"]}
+                free = {frozenset(p) for p in desc["free_pairs"]}
+                M.assume(all(((i, j) in edges) == ((i, j) in base) for i in V for j in V if i != j and frozenset((i, j)) not in free), "fixed part of the graph")
         self.cache = {}
 
     def ez(self, i, j):
@@ -187,14 +221,14 @@ def run_lazy(desc, M):
     names = [lab(i) for i in range(n)]
     idx = {names[i]: i for i in range(n)}
     M.declare([])
-    G = SymDag(M, n)
+    G = SymDag(M, n, desc)
 
     def ci_test(u, v, Zs, **kw):
         return bool(truth(M, G.dsep(idx[u], idx[v], {idx[z] for z in Zs})))
     est = PC(independencies=Independencies())
     est.variables = list(names)
     rt = desc["rt"]
-    res = est.estimate(variant=desc["variant"], ci_test=ci_test, max_cond_vars=n, return_type=rt, show_progress=False, n_jobs=1)
+    res = est.estimate(variant=desc["variant"], ci_test=ci_test, max_cond_vars=desc.get("max_cond_vars", n), return_type=rt, show_progress=False, n_jobs=1)
     V = range(n)
     concrete_edges = None if M.symbolic else {k for k, b in G.E.items() if b}
     if rt == "skeleton":
